@@ -15,7 +15,10 @@
                of a row is a function of the query and of the (key, value)
                pairs of the SAME row that are visible to i, in order; a key j
                is hidden from i when key_padding_mask[j] is True or
-               attn_mask[i, j] is True (weight exactly 0).
+               attn_mask[i, j] is True (weight exactly 0).  This is the meaning of
+               BOOLEAN masks only: torch ADDS a floating-point mask to the scores
+               instead; that every mask is allocated with dtype=torch.bool is a
+               tie fact (proofs/AttentionTie.v, mask_dtypes_tie).
    Part 3: denotation of the IR into the model (an interpreter over values). *)
 From Coq Require Import String List Bool Arith ZArith.
 Import ListNotations.
